@@ -79,6 +79,20 @@ fn gen_case(rng: &mut Rng, history: bool) -> Sx {
                 _ => Sx::l(vec![Sx::n(0), goal(rng)]),
             });
         }
+        // paired changes between two askings of one query: two fields of one kind swap their values, or both get the same new value
+        if rng.chance(1, 2) {
+            let g = goal(rng);
+            let same: Vec<usize> = live.iter().cloned().filter(|&i| KIND[i] == T::B).collect();
+            if same.len() >= 2 {
+                let (i, j) = (same[0], same[1]);
+                let (a, b) = (rng.chance(1, 2), rng.chance(1, 2));
+                ops.push(Sx::l(vec![Sx::n(1), Sx::s(FIELDS[i]), v_bool(a)])); ops.push(Sx::l(vec![Sx::n(1), Sx::s(FIELDS[j]), v_bool(b)]));
+                ops.push(Sx::l(vec![Sx::n(0), g.clone()]));
+                let (a2, b2) = if a != b { (b, a) } else { (!a, !b) };
+                ops.push(Sx::l(vec![Sx::n(1), Sx::s(FIELDS[i]), v_bool(a2)])); ops.push(Sx::l(vec![Sx::n(1), Sx::s(FIELDS[j]), v_bool(b2)]));
+                ops.push(Sx::l(vec![Sx::n(0), g]));
+            }
+        }
         // the same query twice with a change of the facts in between is the interesting shape: make it likely
         if rng.chance(1, 2) { let g = goal(rng); let i = *rng.pick(&live);
             ops.push(Sx::l(vec![Sx::n(0), g.clone()])); ops.push(Sx::l(vec![Sx::n(2), Sx::s(FIELDS[i])])); ops.push(Sx::l(vec![Sx::n(0), g])); }
@@ -90,7 +104,54 @@ fn gen_case(rng: &mut Rng, history: bool) -> Sx {
     Sx::l(vec![Sx::n(strategy), Sx::n(md), Sx::n(maxsol), Sx::b(det), Sx::l(rules), Sx::l(facts), Sx::l(ops)])
 }
 
-pub fn gen(tier: Tier, rng: &mut Rng) -> Vec<Sx> { let n = if tier == Tier::Thorough { 200000 } else { 12000 }; (0..n).map(|_| gen_case(rng, false)).collect() }
+/// A goal that needs a conjunction of sub-goals, each derivable through a chain down to a base fact, with decoy rules
+/// listed FIRST that reach a shared sub-goal through a longer path, and a depth bound that is exactly tight (or off by one):
+/// the shape on which bounded completeness and per-query caches of failed sub-goals go wrong.
+fn gen_layered(rng: &mut Rng) -> Sx {
+    let t = |b: bool| v_bool(b);
+    let fld = |i: usize| format!("N{}", i);
+    let cond1 = |f: &str| Sx::l(vec![Sx::n(0), Sx::s(f), Sx::n(0), t(true)]);
+    let mut rules: Vec<Sx> = vec![];
+    let mut facts: Vec<Sx> = vec![];
+    let mut next = 0usize;
+    let mut fresh = |next: &mut usize| { *next += 1; fld(*next) };
+    let goal = fresh(&mut next);
+    let k = rng.range(1, 3) as usize;
+    // sub-goals and their chains (length 0..3) down to base facts
+    let mut subs: Vec<(String, usize)> = vec![];
+    let mut chain_rules: Vec<Sx> = vec![];
+    for _ in 0..k {
+        let s = fresh(&mut next); let len = rng.below(3) as usize;
+        let mut cur = s.clone();
+        for _ in 0..len { let nx = fresh(&mut next); chain_rules.push(Sx::l(vec![cond1(&nx), Sx::l(vec![Sx::l(vec![Sx::s(&cur), t(true)])])])); cur = nx; }
+        let base = fresh(&mut next); chain_rules.push(Sx::l(vec![cond1(&base), Sx::l(vec![Sx::l(vec![Sx::s(&cur), t(true)])])]));
+        facts.push(Sx::l(vec![Sx::s(&base), t(true)]));
+        subs.push((s, len + 1));
+    }
+    // the rule for the goal
+    let mut c = cond1(&subs[0].0);
+    for (s, _) in subs.iter().skip(1) { c = Sx::l(vec![Sx::n(1), c, cond1(s)]); }
+    rules.push(Sx::l(vec![c, Sx::l(vec![Sx::l(vec![Sx::s(&goal), t(true)])])]));
+    // decoys first: an alternative rule for the first sub-goal that goes through 1..2 extra hops to ANOTHER sub-goal (or a dead end)
+    let (s0, _) = subs[0].clone();
+    let target = if k > 1 && rng.chance(2, 3) { subs[1].0.clone() } else { "Nowhere".to_string() };
+    let hops = rng.range(0, 2);
+    let mut cur = s0.clone(); let mut decoys = vec![];
+    for _ in 0..hops { let nx = fresh(&mut next); decoys.push(Sx::l(vec![cond1(&nx), Sx::l(vec![Sx::l(vec![Sx::s(&cur), t(true)])])])); cur = nx; }
+    decoys.push(Sx::l(vec![cond1(&target), Sx::l(vec![Sx::l(vec![Sx::s(&cur), t(true)])])]));
+    if rng.chance(3, 4) { rules.extend(decoys); rules.extend(chain_rules); } else { rules.extend(chain_rules); rules.extend(decoys); }
+    let height = 1 + subs.iter().map(|x| x.1).max().unwrap();
+    let md = (height as i64 + *rng.pick(&[-2i64, -1, 0, 0, 0, 1])).max(0) as u64;
+    let ops = vec![Sx::l(vec![Sx::n(0), Sx::l(vec![Sx::s(&goal), Sx::n(0), t(true)])])];
+    Sx::l(vec![Sx::n(*rng.pick(&[0u64, 0, 0, 2])), Sx::n(md), Sx::n(*rng.pick(&[1u64, 1, 3])), Sx::b(false), Sx::l(rules), Sx::l(facts), Sx::l(ops)])
+}
+
+pub fn gen(tier: Tier, rng: &mut Rng) -> Vec<Sx> {
+    let n = if tier == Tier::Thorough { 200000 } else { 12000 };
+    let mut v: Vec<Sx> = (0..n).map(|_| gen_case(rng, false)).collect();
+    v.extend((0..n / 3).map(|_| gen_layered(rng)));
+    v
+}
 pub fn gen_c11(tier: Tier, rng: &mut Rng) -> Vec<Sx> { let n = if tier == Tier::Thorough { 100000 } else { 8000 }; (0..n).map(|_| gen_case(rng, true)).collect() }
 
 fn op_of(o: u64) -> (Operator, &'static str) {
